@@ -17,6 +17,9 @@ structure Piecewise {α : Type} (F : Text → List α) (ok : Text → Prop) : Pr
   split : ∀ u Z, ok u → ∀ x, x ∈ F (u ++ '\n' :: Z) ↔ x ∈ F u ∨ x ∈ F Z
   blank : ∀ w, Blank w → F w = []
   okBlank : ∀ w, Blank w → ok w
+  /-- `ok` looks at the end of the text only, white space aside -/
+  okStrip : ∀ u w, Blank w → (ok (u ++ w) ↔ ok u)
+  okSuffix : ∀ u v, ok v → ¬ Blank v → ok (u ++ v)
 
 /-- empty, or an `ok` text and its line feed -/
 def OkEnded (ok : Text → Prop) (X : Text) : Prop := X = [] ∨ ∃ u, X = u ++ ['\n'] ∧ ok u
